@@ -182,7 +182,16 @@ class QueueSemantivaOrchestrator:
 
                 # If the user requested a Future, resolve it now
                 if jid in self.pending_futures:
-                    self.pending_futures[jid].set_result((msg.data, msg.context))
+                    failure = (msg.metadata or {}).get("error")
+                    if failure is not None:
+                        error = (
+                            failure
+                            if isinstance(failure, BaseException)
+                            else RuntimeError(str(failure))
+                        )
+                        self.pending_futures[jid].set_exception(error)
+                    else:
+                        self.pending_futures[jid].set_result((msg.data, msg.context))
                     del self.pending_futures[jid]
 
                 # Acknowledge receipt if transport supports it
